@@ -9,7 +9,7 @@ import numpy as np
 
 KINDS = ['equal', 'approx', 'student', 'bonferroni', 'holm', 'metadata', 'stats_tasks', 'stats_tests',
          'stats_bylabels', 'failed']
-SHAPES = {'1d': (3,), '2d': (2, 2), 'scalar': ()}
+SHAPES = {'1d': (3,), '2d': (2, 2), '2dF': (2, 2), 'scalar': ()}
 
 
 def build_result(ex, kind, shape_name='1d', nds=1, named=True, tag=''):
@@ -25,6 +25,9 @@ def build_result(ex, kind, shape_name='1d', nds=1, named=True, tag=''):
         n = int(np.prod(shape, dtype=int))
         ref = (np.arange(1, n + 1, dtype=float) * 1.5).reshape(shape)
         err = np.full(shape, 0.125)
+        fortran = shape_name.endswith('F')       # Fortran-ordered arrays (transposed views, loadtxt(unpack=True)...)
+        if fortran:
+            ref, err = np.asfortranarray(ref), np.asfortranarray(err)
         bins = OrderedDict()
         for ax, m in enumerate(shape):
             bins[f'ax{ax}'] = np.arange(m + 1, dtype=float) * (ax + 1)
@@ -40,6 +43,8 @@ def build_result(ex, kind, shape_name='1d', nds=1, named=True, tag=''):
             for i in fl:
                 v[i] += 10.0 + d
             v = v.reshape(shape) if shape else np.float64(v[0])
+            if shape and fortran:
+                v = np.asfortranarray(v)
             dss.append(Dataset(v, err.copy() if shape else np.float64(err), bins=bins, name=f'ds{d}' if named else ''))
             failing.append(fl)
         info.update(failing=failing, n=n, shape=shape, nds=nds, dsref=dsref, datasets=dss)
